@@ -230,9 +230,9 @@ def FragUn (d : Gen.D) : List (String × Select) → Bool
   | [] => true
   | (t, s) :: r => unionTyOK d t && FragS3 d s && FragUn d r
 def FragS3 (d : Gen.D) : Select → Bool
-  | .mk (some []) _ cols fr [] js wh gb hv ob none none none lm =>
+  | .mk (some []) dist cols fr [] js wh gb hv ob none none none lm =>
       colsOK3 d cols && !cols.isEmpty && fromOK3 d fr && joinsOK3 d js && FragO3 d wh && groupOK3 d gb && FragO3 d hv && orderOK3 d ob &&
-        limitOK lm
+        limitOK lm && (dist || !searchStrUp (toksCols3 d noX cols) "DISTINCT")
   | _ => false
 def colsOK3 (d : Gen.D) : List (Expr × Option String) → Bool
   | [] => true
